@@ -4,7 +4,7 @@ from engines import simgen as g
 from engines.simprop import make_execute
 
 LEVEL = 'exploration'
-RULE = ('real: pool size 1-4, threads on/off, 0-10 apply/map/imap jobs of 0-0.3 s, close() at a generated offset, join(), then late submissions. ' 
+RULE = ('real: pool size 1-4, threads on/off, 0-10 apply/map/imap jobs of 0-0.3 s, close() at a generated offset, join(), then late submissions; optionally an idle worker is told to exit and replaced before, or close() is called while the supervisor is replacing it (replacement slow to build: dead worker off the list, new one not yet on it). ' 
         'sim: E1 histories of apply/map/starmap/imap submissions and worker '
         'progress with close() at a generated position, then quiesce and join(): '
         'every job handed out before close() must be resolved with its sequential '
